@@ -35,6 +35,8 @@ def configs(tier):
                     out.append(dict(spec=sp, grid=g, safe=safe, bound=bound, kind='run', route='sim'))
                     if g == 'u3' or tier == 'thorough':
                         out.append(dict(spec=sp, grid=g, safe=safe, bound=2, kind='run', route='entry'))
+                        # the same model reached through edits (rejected calls in between), start state set through the Model
+                        out.append(dict(spec=sp, grid=g, safe=safe, bound=2, kind='run', route='edited'))
             for safe in (False, True):
                 out.append(dict(spec=sp, grid='u3', safe=safe, bound=2, kind='bfs'))
     # larger than the small alphabets: counts >= 50, 7 species / 8-10 channels, 11 and 33 time points
@@ -74,7 +76,7 @@ def check_trace(c, impl, net, cfg, times, ref, x0=None, t0=0.0, first=[False]):
     bad = e1.compare(ref, got)
     if bad:
         what, msg = bad
-        key = 'C05/%s/%s/%s' % (('entry-' if cfg.get('route') == 'entry' else '') + ('safe' if cfg['safe'] else 'plain'), cfg['spec']['name'], what)
+        key = 'C05/%s/%s/%s' % (('entry-' if cfg.get('route') == 'entry' else 'edited-' if cfg.get('route') == 'edited' else '') + ('safe' if cfg['safe'] else 'plain'), cfg['spec']['name'], what)
         c.violation(key, msg, dict(cfg=cfg, times=times, us=ref['us'], x0=x0, t0=t0,
                                    ref_rows=ref['rows'], impl_rows=got['rows']))
     return got
@@ -82,7 +84,7 @@ def check_trace(c, impl, net, cfg, times, ref, x0=None, t0=0.0, first=[False]):
 
 def run_config(c, cfg):
     sp = cfg['spec']
-    impl = e1.Impl(sp, cfg['safe'])
+    impl = e1.Impl(sp, cfg['safe'], edited=(cfg.get('route') == 'edited'))
     net = RS.Net(sp, 'stoch', cfg['safe'])
     states = set()
     outcomes = set()
@@ -128,7 +130,7 @@ def run(ctx):
     ctx.rule = ('E1: for every (network, rate/count alphabet member, grid, plain/safe interface) the choice tree of the '
                 'reference direct-method sampler is explored to the cost bound (every waiting-time draw: cross / just after '
                 'now / mid / just before the next grid time / far; every reaction draw: middle and both edges of every live '
-                'bucket) and every complete trace is replayed on SSASimulator (directly and through py_simulate_model(stochastic=True)) under the scripted stream; plus the same '
+                'bucket) and every complete trace is replayed on SSASimulator (directly, through py_simulate_model(stochastic=True), and on a model reached through edits with rejected create_reaction calls in between and its start state set through Model.set_species after the interface was built) under the scripted stream; plus the same '
                 'exploration (bound 2) started from every reachable state, on and between grid times; plus (bound 2) six larger networks (counts 50-200, seven species / eight channels, ten channels) on grids of 11 (thorough: 3, 11, 33) points, and (bound 3) three networks whose rates are of magnitude 1e-11 / 1e9 (grids scaled accordingly) or mix 1e-12 with 1. states = distinct '
                 '(state, grid index) pairs visited by the reference; transitions = draws; a configuration is non-trivial '
                 'when its traces have more than one distinct outcome.')
